@@ -1525,6 +1525,8 @@ func skeletons(o *strings.Builder, f *ast.File) {
 	if err != nil {
 		die("%v", err)
 	}
+	nsv := findFunc(sf, "", "NewSortValue")
+	fmt.Fprintf(o, "/-- NewSortValue, statement by statement: the ladder NULL / integer / float / datetime / boolean / text, and what\n    each kind stores (an integer its float64 image and its upper-cased trimmed TEXT, a float its text, …) -/\ndef newSortValueStatements : List String :=\n  %s\n\n", strList(stmtTexts(nsv)))
 	ser := findFunc(sf, "SortValues", "Serialize")
 	// for i, val := range values { if 0 < i {WriteByte(58)}; if val.SerializedKey != nil {…; continue}; switch val.Type { case …: call } }
 	if len(ser.Body.List) != 1 {
